@@ -13,8 +13,8 @@ NOTE = ('Held = held on the executions observed (see evidence: evaluations, dist
 CHECKS = {
     'C01': dict(
         technique=RM + 'reference-model monitor at the API boundary (exhaustive per-dataset index sweep, expected-error events) + sys.monitoring reach monitor',
-        text='Every linear index of every grid kind of several hundred (quick) / ~12000 (thorough) generated datasets of all conventions is wound and ravelled by the real code while a monitor compares with row-major integer arithmetic on the abstract model; out-of-range linear and native indexes must raise.',
-        note=NOTE + 'Grids up to ~6x6 / ~40 mesh faces.', ref='DESIGN.md §5 C01'),
+        text='Every linear index of every grid kind of 1000 (quick) / 80 000 (thorough) generated datasets (some declaring x before y) of all conventions is wound and ravelled by the real code while a monitor compares with row-major integer arithmetic on the abstract model; out-of-range linear and native indexes must raise; the deprecated unravel_index alias must agree.',
+        note=NOTE + 'Grids up to ~6x6 / ~40 mesh faces (thorough: every sixth dataset up to 14x14 / ~150 faces).', ref='DESIGN.md §5 C01'),
     'C02': dict(
         technique=RM + 'cross-accessor reference-model monitor with self-identifying values (polygons, centres, ravel, select_index, STRtree) + in-situ icontract post-conditions + reach monitor',
         text='For every cell of generated datasets (holes, skewed geometry, permuted dimension orders) the polygon, centre, flattened values, selected values and spatial-index hits observed from the real API are compared with the abstract model; every stored value is a unique id, so any permutation or shift is visible from one observation.',
